@@ -51,7 +51,12 @@ func (s *Server) healthCheckInterval() time.Duration {
 func (s *Server) startHealthCheck() error {
 	healthStatus = s.Config.Server.TokenCheckFailures
 	healthLastPing = time.Now()
-	go s.healthCheckLoop()
+	done := make(chan struct{})
+	s.healthDone = done
+	go func() {
+		defer close(done)
+		s.healthCheckLoop()
+	}()
 	return nil
 }
 
@@ -76,6 +81,12 @@ func (s *Server) healthCheck() bool {
 	healthMu.Unlock()
 	var notOK []string
 	for name, token := range s.tokens {
+		select {
+		case <-s.Closed:
+			// shutting down, leave the remaining tokens alone
+			return false
+		default:
+		}
 		metric := metricTokenCheckErrors.WithLabelValues(name)
 		if s.pingOne(token) {
 			metric.Set(0)
